@@ -71,6 +71,60 @@ Theorem C06_scan_sound : forall wc cl ps r pre p tl,
                   Forall (fun x => wtrue wc ps x = false) skipped.
 Proof. exact skip_false. Qed.
 
+
+(* ---------- MU_ALL_FALSE ---------- *)
+(* FULL statements (NOT proved; kept as the targets).  For programs that never use nsync_mu_unlock_without_wakeup:
+   whenever MU_ALL_FALSE is set and no thread owns the write lock, every queued waiter has a condition that is false in
+   the current protected state ... *)
+Definition no_nw (progs : list (list op)) : Prop := forall ops, In ops progs -> ~ In OUnlockNW ops.
+Definition C06_allfalse_full : Prop := forall progs cl c0 sched,
+  Z.of_nat (length progs) < 2 ^ 24 - 1 -> no_nw progs ->
+  let w := run (init progs cl c0) sched in
+  eq_truth_preserving (cls w) (pst w) ->
+  has (word w) MU_ALL_FALSE = true -> (forall t, ~ holds w t W) ->
+  forall p, In p (queue w) -> exists f a, wcond w p = Some (f, a) /\ pst w f a = false.
+(* ... and no wake-up is lost: there is no reachable quiescent world (no thread can move) in which the mutex is free and a
+   queued nsync_mu_wait caller's condition is true *)
+Definition lost_wakeup (w : world) : Prop :=
+  (forall t c, fst (step w (Thr t c)) = w) /\ (forall t, held (get w t) = None) /\
+  exists t x, mw (get w t) = Some x /\ In t (queue w) /\ cond_true w (mw_cond x) = true.
+Definition C06_no_stuck_full : Prop := forall progs cl c0 sched,
+  Z.of_nat (length progs) < 2 ^ 24 - 1 -> no_nw progs ->
+  let w := run (init progs cl c0) sched in eq_truth_preserving (cls w) (pst w) -> ~ lost_wakeup w.
+
+(* PROVED part (site level, for all word values): which writes to the word can set / clear / keep MU_ALL_FALSE.
+   Every enqueue clears it; every path of nsync_mu_unlock that releases the write lock without scanning clears it;
+   nsync_mu_unlock_without_wakeup and nsync_mu_runlock keep it; the scan's final CAS sets it exactly when the scan kept
+   it in set_on_release and some waiter remains, whatever the word held before.
+   MISSING for C06_allfalse_full / C06_no_stuck_full: the scan-level invariant "set_on_release keeps MU_ALL_FALSE only
+   while every waiter moved to `waiters` was evaluated false in the current protected state" -- it needs RingInv as an
+   invariant of reachable worlds (its sequential core is C06_scan_sound / C06_rings_* above) together with the facts that
+   the protected state is constant while the scanner owns the write lock (C01w_exclusion) and that waiters arriving
+   during the scan are unconditional -- and, for no_stuck, the "who wakes whom" invariant of C02 extended to
+   MU_DESIG_WAKER hand-offs through nsync_mu_wait_with_deadline. *)
+Theorem C06_allfalse_partial :
+  (forall old lw m c, has (nsync_mu_lock_slow_cas2_new old lw (lt_of m) c) MU_ALL_FALSE = false) /\
+  (forall old st, has (nsync_spin_test_and_set_cas1_new old st MU_ALL_FALSE) MU_ALL_FALSE = false) /\
+  has nsync_mu_unlock_cas1_new MU_ALL_FALSE = false /\
+  (forall old, has (nsync_mu_unlock_cas2_new old) MU_ALL_FALSE = false) /\
+  (forall old, has (nsync_mu_unlock_slow_cas1_new old (lt_of W)) MU_ALL_FALSE = false) /\
+  (forall old, 0 <= old < 4294967296 -> old mod 2 = 1 ->
+     has (nsync_mu_unlock_without_wakeup_cas2_new old) MU_ALL_FALSE = has old MU_ALL_FALSE) /\
+  (forall old, has (nsync_mu_runlock_cas2_new old) MU_ALL_FALSE = has old MU_ALL_FALSE) /\
+  (forall w m u old, 0 <= old < 4294967296 -> (u_late u = 0 \/ (u_late u = MU_WLOCK /\ old mod 2 = 1)) -> 0 <= u_set u < 256 ->
+     match snd (finalize w m u) with
+     | UsRelLoad _ f _ =>
+         has (nsync_mu_unlock_slow_cas3_new old (late f) (set_on f) (clear_on f)) MU_ALL_FALSE =
+         has (u_set u) MU_ALL_FALSE && match u_done u with [] => false | _ => true end
+     | _ => False
+     end).
+Proof.
+  split; [exact af_lock_slow_enqueue|]. split; [exact af_wait_enqueue|]. split; [exact af_unlock_fast|].
+  split; [exact af_unlock_cas2|]. split; [exact af_unlock_slow_cas1_W|]. split; [exact af_unlock_nowakeup_cas2|].
+  split; [exact af_runlock_cas2 | exact af_finalize].
+Qed.
+
+Print Assumptions C06_allfalse_partial.
 Print Assumptions C06_eval_under_lock. Print Assumptions C06_cond_eq_sound.
 Print Assumptions C06_rings_enqueue_last. Print Assumptions C06_rings_enqueue_first. Print Assumptions C06_rings_enqueue_plain.
 Print Assumptions C06_rings_remove. Print Assumptions C06_rings_scan_round. Print Assumptions C06_rings_frame.
